@@ -477,6 +477,7 @@ This process is a two-phase process, during the midst of it the peer group's lea
 
 #![deny(clippy::all)]
 #![deny(missing_docs)]
+#![cfg_attr(tikv_raft_rs_verif, allow(missing_docs))]
 #![recursion_limit = "128"]
 // TODO: remove this when we update the mininum rust compatible version.
 #![allow(unused_imports)]
